@@ -621,37 +621,61 @@ class Run:
         return len(self.cases["angle"]) - 1
 
 
-    def add_angle_fresh(self, unit, rmin, rmax, z, H0, Om0, tag):
+    def add_angle_fresh(self, unit, rmin, rmax, z, H0, Om0, tag, family="FlatLambdaCDM", extra=None):
         """the same conversion with a short-lived cosmology object (a parameter scan creates and drops
-        many of them; nothing may be remembered per object identity)"""
+        many of them; nothing may be remembered per object identity) of ANY astropy family: flat, curved (open and
+        closed), constant and evolving dark energy, with and without radiation / massive neutrinos"""
         import gc
-        from astropy.cosmology import FlatLambdaCDM
+        import astropy.cosmology as ac
         from yaw import Configuration
-        cos = FlatLambdaCDM(H0=H0, Om0=Om0)
+        kw = dict(H0=H0, Om0=Om0, **(extra or {}))
+        label = "%s(%s)" % (family, ", ".join("%s=%s" % kv for kv in sorted(kw.items())))
+        cos = getattr(ac, family)(**kw)
         try:
             conf = Configuration.create(rmin=rmin, rmax=rmax, unit=unit, zmin=0.25, zmax=0.5, num_bins=1, cosmology=cos)
             amin, amax = conf.scales.scales.get_angle_radian(z, cosmology=conf.cosmology)
         except Exception as e:  # noqa: BLE001
-            self.ctx.fail("c15-angle-raises:%s" % type(e).__name__, "get_angle_radian raised %s for unit %s with a FlatLambdaCDM object"
-                          % (type(e).__name__, unit), dict(unit=unit, rmin=rmin, rmax=rmax, z=z, H0=H0, Om0=Om0))
+            self.ctx.fail("c15-angle-raises:%s" % type(e).__name__, "get_angle_radian raised %s for unit %s with a %s object"
+                          % (type(e).__name__, unit, family), dict(unit=unit, rmin=rmin, rmax=rmax, z=z, cosmology=label))
             return
-        ref = FlatLambdaCDM(H0=H0, Om0=Om0)      # independent object with the same parameters = the oracle
+        ref = getattr(ac, family)(**kw)      # independent object with the same parameters = the oracle
         DA, DC = float(ref.angular_diameter_distance(float(z)).value), float(ref.comoving_distance(float(z)).value)
         rs = as_list(rmin) + as_list(rmax)
         try:
             ang = [float(x) for x in np.atleast_1d(amin)] + [float(x) for x in np.atleast_1d(amax)]
         except Exception as e:  # noqa: BLE001
-            self.ctx.fail("c15-angle-not-a-number", "get_angle_radian with a short-lived FlatLambdaCDM object returned %r (%s): a value "
-                          "remembered from an earlier, unrelated cosmology object?" % (amin, type(e).__name__),
-                          dict(unit=unit, rmin=rmin, rmax=rmax, z=z, H0=H0, Om0=Om0))
+            self.ctx.fail("c15-angle-not-a-number", "get_angle_radian with a short-lived %s object returned %r (%s): a value "
+                          "remembered from an earlier, unrelated cosmology object?" % (family, amin, type(e).__name__),
+                          dict(unit=unit, rmin=rmin, rmax=rmax, z=z, cosmology=label))
             return
         term = "c15_angle_case %s %s %s %s %s %s" % (coq_unit(unit), fq.q(float(np.pi / 180.0)), fq.q(DA), fq.q(DC),
                                                     fq.qlist(rs), fq.qlist(ang))
-        self.cases["angle"].append(dict(term=term, unit=unit, rmin=rmin, rmax=rmax, z=z, cosmology="FlatLambdaCDM(H0=%s, Om0=%s)" % (H0, Om0),
+        self.cases["angle"].append(dict(term=term, unit=unit, rmin=rmin, rmax=rmax, z=z, cosmology=label,
                                         angles=[a.hex() for a in ang], DA=DA, DC=DC, tag=tag))
-        self.ctx.count(key=("angle-fresh", unit, repr(rmin), repr(rmax), z, H0, Om0), nontrivial=True, kind="angle-fresh/%s" % unit)
+        curved = abs(float(getattr(ref, "Ok0", 0.0))) > 1e-6
+        self.ctx.count(key=("angle-fresh", unit, repr(rmin), repr(rmax), z, label), nontrivial=True,
+                       kind="angle-fresh/%s/%s%s" % (unit, family, "/curved" if curved else ""))
         del cos, conf, ref
         gc.collect()
+
+
+def cosmology_family(rng):
+    """(family, extra keyword arguments) over the astropy FLRW classes: the transverse comoving distance differs from the
+    line-of-sight one only with curvature, dark-energy models change both, radiation matters at high z"""
+    fam = rng.choice(["FlatLambdaCDM", "LambdaCDM", "LambdaCDM", "LambdaCDM", "wCDM", "FlatwCDM", "w0waCDM", "Flatw0waCDM"])
+    extra = {}
+    if fam in ("LambdaCDM", "wCDM", "w0waCDM"):
+        extra["Ode0"] = rng.choice([0.3, 0.5, 0.9, 1.1])          # Om0 + Ode0 != 1: open and closed
+    if fam in ("wCDM", "FlatwCDM", "w0waCDM", "Flatw0waCDM"):
+        extra["w0"] = rng.choice([-1.2, -0.9, -0.7])
+    if fam in ("w0waCDM", "Flatw0waCDM"):
+        extra["wa"] = rng.choice([-0.3, 0.2])
+    if rng.random() < 0.4:
+        extra["Tcmb0"] = 2.725
+        if rng.random() < 0.5:
+            extra["Neff"] = 3.04
+            extra["m_nu"] = [0.0, 0.0, 0.06]
+    return fam, extra
 
 
 def canon(d):
@@ -1340,6 +1364,12 @@ def build_cases(ctx, run):
     for u in ("kpc", "Mpc", "kpc/h", "Mpc/h"):
         for j in range(ctx.n(8, 30)):
             run.add_angle_fresh(u, 100.0, 1000.0, 0.5, 55.0 + 2.5 * j, 0.2 + 0.01 * j, "short-lived-cosmology")
+        # the other astropy families (curved, w, w0-wa, radiation), at any redshift
+        for j in range(ctx.n(10, 40)):
+            fam, extra = cosmology_family(rng)
+            rmin, rmax = gen_scales(rng, multi=(j % 3 == 0))
+            run.add_angle_fresh(u, rmin, rmax, rng.choice(zs), rng.choice([60.0, 67.7, 73.0]), rng.choice([0.2, 0.3, 0.45]),
+                                "cosmology-family", family=fam, extra=extra)
 
 
 def typed_cases(ctx, run, bases):
